@@ -438,6 +438,14 @@ func replayMain(args []string) int {
 			fmt.Printf("VIOLATION property=%s replay=%s\n", rf.Property, fs.Arg(0))
 			return 1
 		}
+		if ec == 3 {
+			// the case did not kill the process this time, but executing it
+			// alone shows another violation of the same property (typically
+			// the allocation that exhausted the batch worker's memory fence)
+			fmt.Printf("replay: the process survived, but the case violates %s by itself:\n%s", rf.Property, outb)
+			fmt.Printf("VIOLATION property=%s replay=%s\n", rf.Property, fs.Arg(0))
+			return 1
+		}
 		fmt.Printf("replay: the process survived (exit %d); recorded: %s\n%s", ec, rf.Signature, outb)
 		return 0
 	}
